@@ -12,6 +12,7 @@ import (
 	"os"
 	"reflect"
 	"sort"
+	"strconv"
 	"strings"
 	"sync/atomic"
 	"time"
@@ -32,6 +33,8 @@ type caseRec struct {
 	NT      []bool          `json:"nt"` // per document: non-trivial by the family's rule (optional)
 	DocIdx  []int           `json:"docidx"`
 	Tag     string          `json:"tag"`
+	Offset  *int            `json:"offset"`
+	ErrKind string          `json:"errkind"`
 }
 
 type violation struct {
@@ -49,17 +52,19 @@ type violation struct {
 }
 
 type replaySummary struct {
-	Cases       int            `json:"cases"`
-	Evaluations int            `json:"evaluations"`
-	Nontrivial  int            `json:"distinct_nontrivial"`
-	Unspec      int            `json:"unspecified_skipped"`
-	Counts      map[string]int `json:"violation_counts"`
-	Violations  []violation    `json:"violations"`
-	Samples     []interface{}  `json:"samples"`
-	CanariesIn  int            `json:"canaries_injected"`
-	CanariesHit int            `json:"canaries_caught"`
-	WallS       float64        `json:"wall_s"`
-	Incomplete  bool           `json:"incomplete"`
+	Cases        int            `json:"cases"`
+	Evaluations  int            `json:"evaluations"`
+	Nontrivial   int            `json:"distinct_nontrivial"`
+	Unspec       int            `json:"unspecified_skipped"`
+	Counts       map[string]int `json:"violation_counts"`
+	Violations   []violation    `json:"violations"`
+	Samples      []interface{}  `json:"samples"`
+	CanariesIn   int            `json:"canaries_injected"`
+	CanariesHit  int            `json:"canaries_caught"`
+	WallS        float64        `json:"wall_s"`
+	Incomplete   bool           `json:"incomplete"`
+	Drift        map[string]int `json:"drift"`
+	DriftSamples []string       `json:"drift_samples"`
 }
 
 const watchdog = 5 * time.Second
@@ -105,15 +110,56 @@ func direct(f func() (interface{}, error)) (o Obs) {
 	return Obs{Kind: "ok", Value: v}
 }
 
-func compileObs(src string) (*jmespath.JMESPath, Obs) {
+func compileObs(src string) (*jmespath.JMESPath, error, Obs) {
 	var jp *jmespath.JMESPath
+	var cerr error
 	o := direct(func() (interface{}, error) {
-		var err error
-		jp, err = jmespath.Compile(src)
-		return nil, err
+		jp, cerr = jmespath.Compile(src)
+		return nil, cerr
 	})
 	o.Compile = true
-	return jp, o
+	return jp, cerr, o
+}
+
+// checkCompileContract: the C17 contract of a failed / successful Compile and of MustCompile.
+// Returns a list of (category, observed) problems.
+func checkCompileContract(src string, jp *jmespath.JMESPath, cerr error) [][2]string {
+	var bad [][2]string
+	if se, ok := cerr.(jmespath.SyntaxError); ok {
+		if se.Expression != src {
+			bad = append(bad, [2]string{"synerr-expression", fmt.Sprintf("Expression=%q", se.Expression)})
+		}
+		if se.Offset < 0 || se.Offset > len(src) {
+			bad = append(bad, [2]string{"synerr-offset", fmt.Sprintf("Offset=%d len=%d", se.Offset, len(src))})
+		} else {
+			hl := direct(func() (interface{}, error) { return se.HighlightLocation(), nil })
+			want := src + "\n" + strings.Repeat(" ", se.Offset) + "^"
+			if hl.Kind != "ok" || hl.Value.(string) != want {
+				bad = append(bad, [2]string{"synerr-highlight", hl.String()})
+			}
+		}
+	}
+	// MustCompile panics exactly when Compile fails, naming the expression
+	var mjp *jmespath.JMESPath
+	m := direct(func() (interface{}, error) { mjp = jmespath.MustCompile(src); return nil, nil })
+	if cerr != nil {
+		if m.Kind != "panic" {
+			bad = append(bad, [2]string{"mustcompile", "Compile failed but MustCompile returned: " + m.String()})
+		} else if !strings.Contains(m.Err, src) && !strings.Contains(m.Err, strconv.Quote(src)) {
+			bad = append(bad, [2]string{"mustcompile", "panic text does not name the expression: " + m.Err})
+		}
+	} else {
+		if m.Kind != "ok" || mjp == nil {
+			bad = append(bad, [2]string{"mustcompile", "Compile succeeded but MustCompile: " + m.String()})
+		} else {
+			a := direct(func() (interface{}, error) { return jp.Search(nil) })
+			b := direct(func() (interface{}, error) { return mjp.Search(nil) })
+			if a.Kind == "panic" || a.Kind != b.Kind || (a.Kind == "ok" && !reflect.DeepEqual(a.Value, b.Value)) {
+				bad = append(bad, [2]string{"mustcompile", "handles differ on Search(nil): " + a.String() + " vs " + b.String()})
+			}
+		}
+	}
+	return bad
 }
 
 type replayer struct {
@@ -124,6 +170,7 @@ type replayer struct {
 	perSig   map[uint64]int
 	maxKeep  int
 	canEvery int
+	contract bool
 	calls    int
 	oneshot  bool
 }
@@ -167,7 +214,7 @@ func (r *replayer) runCase(fam string, c *caseRec, docs []interface{}, docsTagge
 	for si, cps := range c.Srcs {
 		src := cpsToString(cps)
 		r.cur.Store(violation{Cat: "compile-timeout", Fam: fam, ID: c.ID, Src: src, SrcCps: cps, Spelling: si, Observed: "no return within watchdog", Tag: c.Tag})
-		jp, co := compileObs(src)
+		jp, cerr, co := compileObs(src)
 		atomic.AddInt64(&r.progress, 1)
 		r.sum.Evaluations++
 		want := c.Compile
@@ -188,6 +235,27 @@ func (r *replayer) runCase(fam string, c *caseRec, docs []interface{}, docsTagge
 		if (jp == nil) != (co.Kind == "err") {
 			r.add(mk("compile-inconsistent", -1, want, fmt.Sprintf("jp==nil:%v %s", jp == nil, co.String())))
 			continue
+		}
+		if r.contract {
+			for _, b := range checkCompileContract(src, jp, cerr) {
+				r.add(mk(b[0], -1, want, b[1]))
+			}
+			r.sum.Evaluations += 2
+			if se, ok := cerr.(jmespath.SyntaxError); ok && c.Offset != nil && *c.Offset >= 0 && se.Offset != *c.Offset {
+				r.sum.Drift["offset"]++
+				if len(r.sum.DriftSamples) < 10 {
+					r.sum.DriftSamples = append(r.sum.DriftSamples, fmt.Sprintf("%q: offset %d, specification predicts %d", src, se.Offset, *c.Offset))
+				}
+			}
+			if cerr != nil && c.ErrKind != "" {
+				_, isSyn := cerr.(jmespath.SyntaxError)
+				if isSyn != (c.ErrKind == "syntax") {
+					r.sum.Drift["errkind"]++
+					if len(r.sum.DriftSamples) < 10 {
+						r.sum.DriftSamples = append(r.sum.DriftSamples, fmt.Sprintf("%q: error %T, specification predicts %s", src, cerr, c.ErrKind))
+					}
+				}
+			}
 		}
 		if want == "ok" && co.Kind != "ok" {
 			r.add(mk("compile-rejected", -1, want, co.String()))
@@ -301,10 +369,12 @@ func cmdReplay(args []string) int {
 	keep := fs.Int("keep", 3000, "max violations to keep in detail")
 	canEvery := fs.Int("canary-every", 0, "inject a corrupted observation every N search calls")
 	oneshot := fs.Bool("oneshot", false, "also run the one-shot Search for the first spelling")
+	contract := fs.Bool("contract", false, "check the Compile / SyntaxError / MustCompile contract (C17)")
 	fs.Parse(args)
 	start := time.Now()
-	r := &replayer{seen: map[uint64]struct{}{}, perSig: map[uint64]int{}, maxKeep: *keep, canEvery: *canEvery, oneshot: *oneshot}
+	r := &replayer{seen: map[uint64]struct{}{}, perSig: map[uint64]int{}, maxKeep: *keep, canEvery: *canEvery, oneshot: *oneshot, contract: *contract}
 	r.sum.Counts = map[string]int{}
+	r.sum.Drift = map[string]int{}
 	files := fs.Args()
 	sort.Strings(files)
 	done := make(chan error, 1)
